@@ -583,6 +583,25 @@ def r_lossy(run, F, rule="R-LOSSY"):
                        "std::str::from_utf8_unchecked", "std::string::String::from_utf8_lossy_owned") or "CStr" in c or c.endswith("::utf8_chunks"):
                 run.ob(rule, "%s: no rejecting / unchecked text conversion" % path.split("::", 2)[-1], False,
                        "call of %s: undecodable text must be replaced, not rejected (and never trusted)" % c, site(body, x), key="%s|%s|%s" % (rule, path, c))
+    # the names: read_string returns the lossy decoding of exactly the bytes it read (helpers inlined by the path builder)
+    from .terms import mentions
+    for rd in ("ipp::reader::IppReader::<R>::", "ipp::reader::AsyncIppReader::<R>::"):
+        b = F.body(rd + "read_string")
+        if b is None:
+            if "Async" in rd and not async_on(F):
+                continue
+            run.anchor_lost(rule, rd + "read_string")
+            continue
+        for p in paths_of(b):
+            if p.kind == "try":
+                continue
+            m = mentions(p.ret)
+            calls = set(m["callees"]) | {t[1] for t in p.trace if is_call(t)}
+            ok = "std::string::String::from_utf8_lossy" in calls and any(c.endswith("::read_bytes") for c in calls)
+            n += 1
+            run.ob(rule, "%sread_string = lossy text of the bytes read" % rd.split("::")[-2][:-5], ok,
+                   "read_string returns %s (names must be decoded with from_utf8_lossy from read_bytes: an undecodable name is replaced, never rejected or re-coded)" % tshow(p.ret)[:160],
+                   site(b), key="%s|%sread_string" % (rule, rd))
     return n
 
 
